@@ -5,6 +5,10 @@
 import PercevalModel.Model.C02
 import PercevalModel.Lemmas.C02
 import PercevalModel.Lemmas.FockComp
+import PercevalModel.Lemmas.C02Mps
+import PercevalModel.Lemmas.C02Step
+import Mathlib.Algebra.Star.Basic
+import Mathlib.Tactic.FieldSimp
 
 open Matrix
 
@@ -224,11 +228,236 @@ non-symmetric unitary and a bunched two-photon space -/
 example : IsUnitary exU ∧ ([1, 1] : List ℕ).length = 2 ∧ ([2, 0] : List ℕ) ∈ allStates 2 2 :=
   ⟨by unfold IsUnitary; decide +kernel, rfl, by decide⟩
 
+/-! ### MPS: the closed formulas of the transition tensors (`Lemmas/C02Mps.lean`) -/
+
+/-- **`MPSBackend._transition_matrix_1_mode` is the one-mode specification**: on the `i`-photon
+component a phase shifter `(u)` acts as `u^i`; `⟨j|u|i⟩ = pamp/√(i! j!)` and `pamp = i!·u^i·[i = j]`,
+every photon number below the tensor's side `d` -/
+theorem mps_tm1_eq_pamp [CommRing R] (U : Matrix (Fin 1) (Fin 1) R) (d i j : ℕ) (hi : i < d)
+    (hj : j < d) : ((i.factorial : ℕ) : R) * tm1 U d i j = pamp U [i] [j] :=
+  tm1_mul_eq_pamp U d i j hi hj
+
+/-- **`MPSBackend._transition_matrix_2_mode` is the two-mode specification**: the explicit double
+binomial sum of the code for `|n1,n2> → |m1,m2>` under the block `U` (a photon entering mode `j`
+leaves in mode `i` with amplitude `U i j`), times `m1! m2!`, is `perm(U[(m1,m2)|(n1,n2)])` — for
+*every* 2×2 matrix over a commutative ring (unitary or not) and all photon numbers within the
+tensor (`n1 + n2 ≤ nmax`); in particular it vanishes when `n1 + n2 ≠ m1 + m2` -/
+theorem mps_tm2_eq_pamp [CommRing R] (U : Matrix (Fin 2) (Fin 2) R) (nmax n1 n2 m1 m2 : ℕ)
+    (hn : n1 + n2 ≤ nmax) :
+    ((m1.factorial * m2.factorial : ℕ) : R) * tm2 U nmax n1 n2 m1 m2 =
+      pamp U [n1, n2] [m1, m2] :=
+  tm2_mul_eq_pamp U nmax n1 n2 m1 m2 hn
+
+/-- rows of the tensor for more photons than the compiled input carries are left empty -/
+theorem mps_tm2_beyond [CommRing R] (U : Matrix (Fin 2) (Fin 2) R) (nmax n1 n2 m1 m2 : ℕ)
+    (hn : nmax < n1 + n2) : tm2 U nmax n1 n2 m1 m2 = 0 := by
+  unfold tm2
+  rw [if_neg (by omega)]
+
+/-- the tensor entry as the code stores it — the double sum times `√(m1! m2!) / √(n1! n2!)` — is the
+documented amplitude `perm / √(n1! n2! m1! m2!)`: in any field of characteristic zero, for any
+elements `rn`, `rm` whose squares are the two factorial products (the square roots in `ℂ`) -/
+theorem mps_tm2_normalised [Field R] [CharZero R] (U : Matrix (Fin 2) (Fin 2) R)
+    (nmax n1 n2 m1 m2 : ℕ) (hn : n1 + n2 ≤ nmax) (rn rm : R)
+    (hrn : rn * rn = ((n1.factorial * n2.factorial : ℕ) : R))
+    (hrm : rm * rm = ((m1.factorial * m2.factorial : ℕ) : R)) :
+    tm2 U nmax n1 n2 m1 m2 * rm / rn = pamp U [n1, n2] [m1, m2] / (rn * rm) := by
+  have hn0 : rn ≠ 0 := by
+    intro h
+    rw [h, mul_zero] at hrn
+    exact (Nat.cast_ne_zero.2 (Nat.mul_ne_zero (Nat.factorial_ne_zero _)
+      (Nat.factorial_ne_zero _))) hrn.symm
+  have hm0 : rm ≠ 0 := by
+    intro h
+    rw [h, mul_zero] at hrm
+    exact (Nat.cast_ne_zero.2 (Nat.mul_ne_zero (Nat.factorial_ne_zero _)
+      (Nat.factorial_ne_zero _))) hrm.symm
+  rw [← mps_tm2_eq_pamp U nmax n1 n2 m1 m2 hn, ← hrm]
+  field_simp
+
+/-! regression / non-vacuity: the non-symmetric block, bunched output; the transposed block gives
+another value (the defect already repaired in /repo) -/
+def exV : Matrix (Fin 2) (Fin 2) GQ := fun i j =>
+  if i = 0 ∧ j = 0 then ⟨3/5, 0⟩ else if i = 0 ∧ j = 1 then ⟨0, 4/5⟩
+  else if i = 1 ∧ j = 0 then ⟨4/5, 0⟩ else ⟨0, 3/5⟩
+
+example : tm2 exV 3 2 1 3 0 = ⟨0, 36/125⟩ := by decide +kernel
+example : tm2 exVᵀ 3 2 1 3 0 ≠ tm2 exV 3 2 1 3 0 := by decide +kernel
+example : tm1 (fun _ _ => (⟨0, 1⟩ : GQ)) 4 3 3 = ⟨0, -1⟩ := by decide +kernel
+
+/-! ### the step-by-step simulator on the modes of each component (`Lemmas/C02Step.lean`,
+`Lemmas/C02Embed.lean`) -/
+
+/-- **spectators are untouched** (the lemma `stepper_sound` was missing): the amplitude of a component
+`B` embedded at modes `o … o+k-1` of an `m`-mode circuit vanishes unless `t = s` on every other
+mode, and then it is the amplitude of `B` alone between the slices times `∏ sⱼ!` of the other
+modes — every commutative ring, every photon number -/
+theorem embed_amplitude_local [CommRing R] {k m o : ℕ} (hk : o + k ≤ m)
+    (B : Matrix (Fin k) (Fin k) R) (s t : List ℕ) (hs : s.length = m) (ht : t.length = m) :
+    pamp (PM.embed m o B) s t =
+      if ∀ j : Fin m, ¬ (o ≤ j.val ∧ j.val < o + k) → t.getD j.val 0 = s.getD j.val 0 then
+        ((∏ j : Fin m with ¬ (o ≤ j.val ∧ j.val < o + k), (s.getD j.val 0).factorial : ℕ) : R) *
+          pamp B (slice s o k) (slice t o k)
+      else 0 :=
+  Embed.pamp_embed_slice hk B s t hs ht
+
+/-- **`Stepper.apply` = one full-space step with the embedded component**: replacing, in every state
+of the vector, the slice of the component's modes by the outputs of the component alone (other modes
+not looked at) gives exactly `stepAmps (embed M r0 B)` of the amplitudes — the restricted-mode
+propagation and the full-size one of `stepper_sound` coincide -/
+theorem stepper_apply_eq_stepAmps [Field R] [CharZero R] {M k r0 : ℕ} (hk : r0 + k ≤ M)
+    (B : Matrix (Fin k) (Fin k) R) (n : ℕ) (sv : SV R) (hsv : KeysIn M n sv) (t : List ℕ)
+    (ht : t.length = M) :
+    svGet (stepperApply (fun v => ((prodFact v : R))⁻¹) B r0 sv) t =
+      stepAmps (PM.embed M r0 B) n (svGet sv) t := by
+  rw [stepperApply_eq_stepAmpsInv hk _
+    (fun v => inv_mul_cancel₀ (Nat.cast_ne_zero.2 (FockComp.prodFact_ne_zero v))) B n sv hsv t ht]
+  unfold stepAmpsInv stepAmps
+  simp only [div_eq_mul_inv]
+
+/-- **the step-by-step simulator as it is written is sound**: `Stepper.compile` — start from the
+input state, for each component touch only the slice of its modes — yields for every output `t`
+the amplitude of the circuit's full matrix; any component sizes and positions, any (bunched) input,
+any photon number.  `inv` is any inverse of the factorial products (`(·)⁻¹` in a field, `gqInv`
+in `ℚ[i]`). -/
+theorem stepper_run_sound [CommRing R] {M : ℕ} (inv : List ℕ → R)
+    (hinv : ∀ v, inv v * (prodFact v : R) = 1) (comps : List (Comp R)) (hfit : Fits M comps)
+    (s t : List ℕ) (hs : s.length = M) (ht : t.length = M) (hst : s.sum = t.sum) :
+    svGet (stepperRun inv comps s) t = pamp (compsMatrix M comps) s t := by
+  have hmem : s ∈ allStates M s.sum := (mem_allStates_iff M s.sum s).2 ⟨hs, rfl⟩
+  refine (stepperRun_aux inv hinv s hs comps hfit [(s, (prodFact s : R))] 1 ?_ ?_).2 t
+    ((mem_allStates_iff M s.sum t).2 ⟨ht, hst.symm⟩)
+  · intro p hp
+    rw [List.mem_singleton.1 hp]
+    exact hmem
+  · intro u hu
+    obtain ⟨hul, hun⟩ := (mem_allStates_iff M s.sum u).1 hu
+    rw [pamp_identity s u hs hul hun.symm]
+    simp [svGet, eq_comm]
+
+/-- … its result has components only in the `(M, n)` space of the input -/
+theorem stepper_run_keys [CommRing R] {M : ℕ} (inv : List ℕ → R)
+    (hinv : ∀ v, inv v * (prodFact v : R) = 1) (comps : List (Comp R)) (hfit : Fits M comps)
+    (s : List ℕ) (hs : s.length = M) : KeysIn M s.sum (stepperRun inv comps s) := by
+  refine (stepperRun_aux inv hinv s hs comps hfit [(s, (prodFact s : R))] 1 ?_ ?_).1
+  · intro p hp
+    rw [List.mem_singleton.1 hp]
+    exact (mem_allStates_iff M s.sum s).2 ⟨hs, rfl⟩
+  · intro u hu
+    obtain ⟨hul, hun⟩ := (mem_allStates_iff M s.sum u).1 hu
+    rw [pamp_identity s u hs hul hun.symm]
+    simp [svGet, eq_comm]
+
+/-- the executable instance: `ℚ[i]` with `gqInv` -/
+theorem stepper_run_sound_GQ {M : ℕ} (comps : List (Comp GQ)) (hfit : Fits M comps)
+    (s t : List ℕ) (hs : s.length = M) (ht : t.length = M) (hst : s.sum = t.sum) :
+    svGet (stepperRun FockComp.gqInv comps s) t = pamp (compsMatrix M comps) s t :=
+  stepper_run_sound FockComp.gqInv FockComp.gqInv_mul comps hfit s t hs ht hst
+
+/-- non-vacuity: two overlapping two-mode components on three modes, bunched input -/
+example : Fits 3 [(⟨2, 0, exV⟩ : Comp GQ), ⟨2, 1, exV⟩] ∧ ([2, 0, 1] : List ℕ).length = 3 := by
+  refine ⟨?_, rfl⟩
+  intro c hc
+  simp only [List.mem_cons, List.not_mem_nil, or_false] at hc
+  rcases hc with rfl | rfl <;> decide
+
+/-! ### `evolve()`: masks and normalisation -/
+
+/-- **masked `evolve` lists the unmasked amplitudes restricted to the kept states** (before the
+`StateVector` normalises itself) -/
+theorem evolve_mask_restrict [CommRing R] {m : ℕ} (U : Matrix (Fin m) (Fin m) R) (s : List ℕ)
+    (masks : List (List (Option ℕ))) :
+    evolveAmps U s masks = (evolveAmps U s []).filter (fun p => masksOk masks 0 p.1) := by
+  simp only [evolveAmps, bulkStates, allStatesMasked, List.filter_map]
+  congr 1
+  rw [List.filter_filter]
+  apply List.filter_congr
+  intro t _
+  simp [masksOk, Function.comp]
+
+/-- the kept mass is the mass of the restricted distribution -/
+theorem keptMass_eq {m : ℕ} (U : Matrix (Fin m) (Fin m) GQ) (s : List ℕ)
+    (masks : List (List (Option ℕ))) :
+    keptMass U s masks =
+      (((probDistribution U s []).filter (fun p => masksOk masks 0 p.1)).map Prod.snd).sum := by
+  rw [← mask_restrict, ← allProb_eq_probDistribution]
+  rfl
+
+/-- without a mask a unitary circuit keeps all the mass: the `StateVector` normalisation changes
+nothing -/
+theorem keptMass_unmasked {m : ℕ} (U : Matrix (Fin m) (Fin m) GQ) (hU : IsUnitary U)
+    (s : List ℕ) (hs : s.length = m) : keptMass U s [] = 1 := by
+  have h := dist_sums_to_one_GQ U hU s hs
+  have hf : (allStates m s.sum).filter (masksOk [] 0) = allStates m s.sum :=
+    List.filter_eq_self.2 fun t _ => rfl
+  unfold keptMass bulkStates allStatesMasked
+  rw [hf]
+  exact h
+
+theorem evolveProbs_unmasked {m : ℕ} (U : Matrix (Fin m) (Fin m) GQ) (hU : IsUnitary U)
+    (s : List ℕ) (hs : s.length = m) : evolveProbs U s [] = probDistribution U s [] := by
+  unfold evolveProbs probDistribution
+  rw [keptMass_unmasked U hU s hs]
+  simp
+
+/-- **masked `evolve` = restricted and renormalised by the kept mass**: the squared moduli of the
+normalised result are the unmasked probabilities of the kept states divided by the kept mass … -/
+theorem evolveProbs_eq {m : ℕ} (U : Matrix (Fin m) (Fin m) GQ) (s : List ℕ)
+    (masks : List (List (Option ℕ))) :
+    evolveProbs U s masks =
+      ((probDistribution U s []).filter (fun p => masksOk masks 0 p.1)).map
+        fun p => (p.1, p.2 / keptMass U s masks) := by
+  rw [← mask_restrict]
+  simp [evolveProbs, probDistribution, Function.comp_def]
+
+/-- … and they sum to one whenever the mask keeps some mass -/
+theorem evolveProbs_sum_one {m : ℕ} (U : Matrix (Fin m) (Fin m) GQ) (s : List ℕ)
+    (masks : List (List (Option ℕ))) (h : keptMass U s masks ≠ 0) :
+    ((evolveProbs U s masks).map Prod.snd).sum = 1 := by
+  unfold evolveProbs
+  rw [List.map_map]
+  have : (Prod.snd ∘ fun t => (t, prob U s t / keptMass U s masks)) =
+      fun t => prob U s t * (keptMass U s masks)⁻¹ := by
+    funext t; simp [div_eq_mul_inv]
+  rw [this, List.sum_map_mul_right]
+  exact mul_inv_cancel₀ h
+
+/-- the same for the amplitudes themselves in any `*`-field (e.g. `ℂ`): dividing the kept
+amplitudes by any `c` with `c·c̄ =` kept mass (the norm the `StateVector` divides by) gives a vector
+of unit mass, proportional to the kept unmasked amplitudes -/
+theorem evolve_normalised [Field R] [StarRing R] {m : ℕ} (U : Matrix (Fin m) (Fin m) R)
+    (s : List ℕ) (masks : List (List (Option ℕ))) (c : R) (hc0 : c ≠ 0)
+    (hc : c * star c = ((bulkStates m s masks).map fun t =>
+      pamp U s t * star (pamp U s t) / ((prodFact s : R) * (prodFact t : R))).sum) :
+    ((bulkStates m s masks).map fun t =>
+      (pamp U s t / c) * star (pamp U s t / c) / ((prodFact s : R) * (prodFact t : R))).sum = 1 := by
+  have hsc : star c ≠ 0 := by
+    intro h
+    apply hc0
+    have := congrArg star h
+    simpa using this
+  have hterm : ∀ t ∈ bulkStates m s masks,
+      (pamp U s t / c) * star (pamp U s t / c) / ((prodFact s : R) * (prodFact t : R)) =
+        pamp U s t * star (pamp U s t) / ((prodFact s : R) * (prodFact t : R)) * (c * star c)⁻¹ := by
+    intro t _
+    rw [star_div₀]
+    field_simp
+  rw [List.map_congr_left hterm, List.sum_map_mul_right, ← hc]
+  exact mul_inv_cancel₀ (mul_ne_zero hc0 hsc)
+
+/-- non-vacuity of `evolveProbs_sum_one`: a mask that keeps part of the mass -/
+example : keptMass exU [1, 1] [[some 1, none]] ≠ 0 := by decide +kernel
+
 /-!
 Not proved: nothing of the design's stretch list remains open.  What stays outside any theorem: the
-engines' native kernels (permanent, SLOS/SLAP layers, MPS contraction, `StateVector`) are external
-code — for them the model *is* the specification and agreement is established by the correspondence
-only; and the `1/√(∏s!∏t!)` normalisation is irrational, so theorems are about `pamp` and `|pamp|²`.
+engines' native kernels (permanent, SLOS/SLAP layers, `StateVector`) and the numerical part of the MPS
+engine (tensor contraction, SVD and truncation of `update_state_2_mode`; only the two transition
+tensors it contracts with are modelled and proved) are external/numerical code — for them the model
+*is* the specification and agreement is established by the correspondence only; the Stepper's
+`_result_dict` cache keyed by `describe()` and its PERM shortcut inside a run (`perm_relabel` is the
+full-size statement) are validated by the correspondence; and the `1/√(∏s!∏t!)` normalisation is
+irrational, so theorems are about `pamp` and `|pamp|²` (`mps_tm2_normalised`, `evolve_normalised`
+quantify over any square roots instead).
 -/
 
 end PM.C02
